@@ -374,3 +374,40 @@ Definition event_proves (c : config) (ev : event) (A : bytes) (T : Z) : Prop :=
    remote has not been disconnected since *)
 Definition backed (c : config) (evs : list event) (A : bytes) (T : Z) : Prop :=
   exists before ev after, evs = before ++ ev :: after /\ event_proves c ev A T /\ ~ In EvDisconnect after.
+
+(* ---- a remote that stalls ---------------------------------------------------------------------------
+   A script is what has arrived so far.  [handle] / [handshake] treat the end of the script as a failed
+   read; in the code a read with nothing to read BLOCKS until the context passed to Handle / Handshake
+   is done (stream.ReadMsg selects on ctx.Done()): handleConnectReq passes the Service's base context
+   (no deadline: only Close ends it), Connect its caller's context.  [*_waits] says that the run is
+   blocked in such a read after consuming the whole script; the cancelled read is the frame [eof]. *)
+Definition eof : frame := {| as_req := None; as_resp := None |}.
+
+Definition handle_waits (c : config) (o : oracles) (wfail : nat -> bool) (script : list frame) : bool :=
+  match script with
+  | [] => true
+  | f1 :: rest =>
+      match as_req f1 with
+      | None => false
+      | Some (role, token, sig) =>
+          match verify_req o role token sig with
+          | (inr _, _) => false
+          | (inl _, _) =>
+              if wfail 0%nat then false else if wfail 1%nat then false
+              else match rest with [] => true | _ :: _ => false end
+          end
+      end
+  end.
+
+Definition handshake_waits (c : config) (o : oracles) (wfail : nat -> bool) (script : list frame) : bool :=
+  if wfail 0%nat then false
+  else match script with
+       | [] => true
+       | f1 :: rest =>
+           match as_resp f1 with
+           | None => false
+           | Some (ea, er) =>
+               if negb (echo_ok c ea er) then false
+               else match rest with [] => true | _ :: _ => false end
+           end
+       end.
